@@ -18,6 +18,7 @@ Verdict(e) == CASE e.op = "pattern" -> PatternVerdict(e)
                 [] e.op = "reuse" -> (IF e.raised = 1 THEN "SolveTotal"
                                       ELSE IF ReuseBad([has |-> FALSE, forMat |-> 0], e.hist, e.errs) = {} THEN "ok"
                                       ELSE "ReuseGivesSameSolution")
+                [] e.op = "options" -> (IF e.unchanged = 1 THEN "ok" ELSE "CallerOptionsUntouched")
                 [] e.op = "distance" -> (IF e.spreadexp <= -5 THEN "ok" ELSE "SameDistance")
 Judge(e) == LET r == Verdict(e) IN IF r = "ok" THEN TRUE ELSE PrintT(<<"BAD", e.tid, l, r>>)
 Next == /\ l <= Len(Lines)
